@@ -1,8 +1,7 @@
 import Rivaas.Lemmas.ComposeSound
 /-
-Soundness of the composition model including `Mount`, for scripts in which only the serving router
-is warmed up explicitly (a sub-router warmed up before `Mount` is the recorded finding K02b):
-`Rivaas.Compose.compose_admitted_mount`. Generalises the router invariant of `ComposeSound.lean`
+Soundness of the composition model including `Mount` (the code after the K02b fix: a mount reads the
+`route.Route` objects of the sub-router, warmed up or not): `Rivaas.Compose.compose_admitted_mount`. Generalises the router invariant of `ComposeSound.lean`
 from "the record a declaring op hands to its router" to "a record any op (declaration or mount)
 hands to a router".
 -/
@@ -15,7 +14,7 @@ def mountRecs (w : World) (p s seg : Nat) (inh : Bool) (extra : List Hid) : List
   | some pr, some sr =>
     let f := fun (rt : RouteRec) =>
       ({ ver := none, path := seg :: rt.path, hs := ((if inh then pr.mw else []) ++ sr.mw ++ extra) ++ rt.hs } : RouteRec)
-    sr.pending.map f ++ (if sr.hasInfo && sr.pending.isEmpty then (sr.tree.filter (·.ver.isNone)).map f else [])
+    sr.objs.map f
   | _, _ => []
 
 theorem mountOp_eq (w : World) (p s seg : Nat) (inh : Bool) (extra : List Hid) :
@@ -26,12 +25,7 @@ theorem mountOp_eq (w : World) (p s seg : Nat) (inh : Bool) (extra : List Hid) :
   | some pr =>
     cases w.routers[s]? with
     | none => rfl
-    | some sr =>
-      simp only []
-      by_cases hc : (sr.hasInfo && sr.pending.isEmpty) = true
-      · simp only [hc, if_true, List.foldl_append, List.foldl_map]
-      · have hc' : (sr.hasInfo && sr.pending.isEmpty) = false := by simpa using hc
-        simp only [hc', Bool.false_eq_true, if_false, List.append_nil, List.foldl_map]
+    | some sr => simp only [List.foldl_map]
 
 /-- the records op hands to routers -/
 def handed (w : World) (op : Op) : List (Nat × RouteRec) :=
@@ -110,6 +104,8 @@ structure RInvM (script : List Op) (t r : Nat) (rs : RouterSt) : Prop where
   warmed : rs.warmed = true → rs.pending = []
   cold : rs.warmed = false → rs.tree = []
   objs : ∀ rec ∈ rs.objs, ∃ i, i < t ∧ Handed script i r rec
+  /-- every record ever handed to the router is one of its route objects (what `Mount` reads) -/
+  opres : ∀ i rec0, i < t → Handed script i r rec0 → r < (W script i).routers.length → rec0 ∈ rs.objs
 
 section
 variable (script : List Op) (t : Nat) (htl : t < script.length)
@@ -156,6 +152,14 @@ theorem rinvM_keep (r : Nat) (rs rs' : RouterSt) (h : RInvM script t r rs) (hs :
     rw [h5] at hr
     obtain ⟨i, a, b⟩ := h.objs rec hr
     exact ⟨i, by omega, b⟩
+  opres := by
+    intro i rec0 a b c
+    rw [h5]
+    rcases Nat.lt_or_ge i t with hlt | hge
+    · exact h.opres i rec0 hlt b c
+    · have : i = t := by omega
+      subst this
+      exact (hnone rec0 b).elim
 
 /-- `Warmup` of this router -/
 theorem rinvM_warm (r : Nat) (rs : RouterSt) (h : RInvM script t r rs)
@@ -169,7 +173,7 @@ theorem rinvM_warm (r : Nat) (rs : RouterSt) (h : RInvM script t r rs)
     simp only [hw', Bool.false_eq_true, if_false]
     rw [foldl_register]
     have hk := rinvM_keep script t htl r rs rs h [] (by rw [hsel]; rfl) hnone (by simp) rfl rfl rfl rfl
-    refine ⟨hk.mw, by simp, ?_, ?_, by simp, by simp, hk.objs⟩
+    refine ⟨hk.mw, by simp, ?_, ?_, by simp, by simp, hk.objs, hk.opres⟩
     · intro rec hr
       simp only [List.mem_append, List.mem_map] at hr
       rcases hr with hr | ⟨rt, hrt, rfl⟩
@@ -208,7 +212,14 @@ theorem rinvM_add (r : Nat) (rs : RouterSt) (h : RInvM script t r rs) (recs : Li
         rcases hr with hr | hr
         · obtain ⟨i, a, b⟩ := h.objs rc hr
           exact ⟨i, by omega, b⟩
-        · exact ⟨t, by omega, (hrecs rc).mpr hr⟩)⟩
+        · exact ⟨t, by omega, (hrecs rc).mpr hr⟩), (by
+        intro i rec0 a b c
+        simp only [List.mem_append]
+        rcases Nat.lt_or_ge i t with hlt | hge
+        · exact Or.inl (h.opres i rec0 hlt b c)
+        · have : i = t := by omega
+          subst this
+          exact Or.inr ((hrecs rec0).mp b))⟩
       · intro rc hr; simp only [] at hr; rw [hp] at hr; simp at hr
       · intro rc hr
         simp only [List.mem_append, List.mem_map] at hr
@@ -234,7 +245,14 @@ theorem rinvM_add (r : Nat) (rs : RouterSt) (h : RInvM script t r rs) (recs : Li
         rcases hr with hr | hr
         · obtain ⟨i, a, b⟩ := h.objs rc hr
           exact ⟨i, by omega, b⟩
-        · exact ⟨t, by omega, (hrecs rc).mpr hr⟩)⟩
+        · exact ⟨t, by omega, (hrecs rc).mpr hr⟩), (by
+        intro i rec0 a b c
+        simp only [List.mem_append]
+        rcases Nat.lt_or_ge i t with hlt | hge
+        · exact Or.inl (h.opres i rec0 hlt b c)
+        · have : i = t := by omega
+          subst this
+          exact Or.inr ((hrecs rec0).mp b))⟩
       · intro rc hr
         simp only [List.mem_append] at hr
         rcases hr with hr | hr
@@ -270,7 +288,7 @@ theorem rinvM_rereg (r : Nat) (rs : RouterSt) (h : RInvM script t r rs) (ver : O
         cases hw : rs.warmed with
         | true => rfl
         | false => rw [h.cold hw] at ha; simp at ha
-      refine ⟨hk.mw, hk.pend, ?_, ?_, hk.warmed, fun hx => by simp [hwarm] at hx, hk.objs⟩
+      refine ⟨hk.mw, hk.pend, ?_, ?_, hk.warmed, fun hx => by simp [hwarm] at hx, hk.objs, hk.opres⟩
       · intro rc hr
         simp only [List.mem_append, List.mem_singleton] at hr
         rcases hr with hr | rfl
@@ -363,7 +381,8 @@ theorem rinvM (script : List Op) (hwf : WFR script) :
       | zero => simp at h; exact ⟨rfl, h.symm⟩
       | succ r => simp at h
     obtain ⟨rfl, rfl⟩ := this
-    exact ⟨by simp [usesB_zero], by simp, by simp, by intro i rec0 h2; omega, by simp, by simp, by simp⟩
+    exact ⟨by simp [usesB_zero], by simp, by simp, by intro i rec0 h2; omega, by simp, by simp, by simp,
+      by intro i rec0 h2; omega⟩
   | succ t ih =>
     intro ht r rs hr
     have htl : t < script.length := ht
@@ -388,9 +407,13 @@ theorem rinvM (script : List Op) (hwf : WFR script) :
           | succ j => rw [hx] at hr; simp at hr
         simp [hr0] at hr
         subst hr
-        refine ⟨?_, by simp, by simp, ?_, by simp, by simp, by simp⟩
+        refine ⟨?_, by simp, by simp, ?_, by simp, by simp, by simp, ?_⟩
         · show ([] : List Hid) = _
           rw [usesB_succ _ _ _ htl, hsel r, usesB_router_future_nil script hwf r t (by omega)]; rfl
+        · intro i rec0 a b c
+          have hli := routers_length_M script i (by omega)
+          have := cnt_mono isNewRouter script i t (by omega)
+          omega
         · intro i rec0 a b c
           have hli := routers_length_M script i (by omega)
           have := cnt_mono isNewRouter script i t (by omega)
@@ -593,7 +616,7 @@ theorem handed_not_use (w : World) (op : Op) (x : Nat × RouteRec) (h : x ∈ ha
 theorem handed_mount (w : World) (p s seg : Nat) (inh : Bool) (extra : List Hid) (r : Nat) (rec : RouteRec)
     (h : (r, rec) ∈ handed w (.mount p s seg inh extra)) :
     r = p ∧ ∃ pr sr recS, w.routers[p]? = some pr ∧ w.routers[s]? = some sr ∧
-      (recS ∈ sr.pending ∨ recS ∈ sr.tree) ∧
+      recS ∈ sr.objs ∧
       rec = { ver := none, path := seg :: recS.path,
               hs := ((if inh then pr.mw else []) ++ sr.mw ++ extra) ++ recS.hs } := by
   simp only [handed, List.mem_map, Prod.mk.injEq] at h
@@ -606,22 +629,16 @@ theorem handed_mount (w : World) (p s seg : Nat) (inh : Bool) (extra : List Hid)
     cases hs : w.routers[s]? with
     | none => simp [hp, hs] at hrt
     | some sr =>
-      simp only [hp, hs, List.mem_append, List.mem_map] at hrt
-      rcases hrt with ⟨recS, h1, rfl⟩ | hrt
-      · exact ⟨pr, sr, recS, rfl, rfl, Or.inl h1, rfl⟩
-      · by_cases hc : (sr.hasInfo && sr.pending.isEmpty) = true
-        · simp only [hc, if_true, List.mem_map, List.mem_filter] at hrt
-          obtain ⟨recS, ⟨h1, _⟩, rfl⟩ := hrt
-          exact ⟨pr, sr, recS, rfl, rfl, Or.inr h1, rfl⟩
-        · have hc' : (sr.hasInfo && sr.pending.isEmpty) = false := by simpa using hc
-          simp [hc'] at hrt
+      simp only [hp, hs, List.mem_map] at hrt
+      obtain ⟨recS, h1, rfl⟩ := hrt
+      exact ⟨pr, sr, recS, rfl, rfl, h1, rfl⟩
 
 theorem matchLevels_append_must (must may : List Hid) (ls : List Level) (c : List Hid)
     (hc : matchLevels ls c = true) : matchLevels ((must, may) :: ls) (must ++ c) = true := by
   have := matchLevels_cons must may [] c ls (List.nil_sublist _) hc
   simpa using this
 
-theorem bridge (script : List Op) (hwf : WFM script) (hc : SubsCold script) :
+theorem bridge (script : List Op) (hwf : WFM script) :
     ∀ j r rec, Handed script j r rec → IDesc script r rec j := by
   intro j
   induction j using Nat.strongRecOn with
@@ -634,15 +651,10 @@ theorem bridge (script : List Op) (hwf : WFM script) (hc : SubsCold script) :
         obtain ⟨rfl, pr, sr, recS, hp, hs, hin, hrec⟩ := handed_mount _ _ _ _ _ _ _ _ hmem
         have hrt := hwf.rt j _ hop
         simp only [] at hrt
-        -- the sub-router is cold: the record was still pending there
-        have hcold := subs_cold script hc j (Nat.le_of_lt hjl) s sr (by omega) hs
+        -- the record is one of the routes created on the sub-router
         have hinvS := rinvM script hwf.r j (Nat.le_of_lt hjl) s sr hs
         have hinvP := rinvM script hwf.r j (Nat.le_of_lt hjl) r pr hp
-        have hpend : recS ∈ sr.pending := by
-          rcases hin with h | h
-          · exact h
-          · rw [hinvS.cold hcold] at h; simp at h
-        obtain ⟨i', hi'j, hH'⟩ := hinvS.pend recS hpend
+        obtain ⟨i', hi'j, hH'⟩ := hinvS.objs recS hin
         obtain ⟨js, i, rr, ver0, path0, gls, hs0, mpre, mls, a1, a2, a3, a4, a5, a6, a7⟩ := ih i' hi'j s recS hH'
         -- middleware of the sub-router between the arrival there and the mount
         obtain ⟨op', hop', hmem'⟩ := hH'
@@ -756,7 +768,7 @@ theorem routers_length_mono (script : List Op) (a b : Nat) (hab : a ≤ b) (hb :
   have := cnt_mono isNewRouter script a b hab
   omega
 
-theorem presence (script : List Op) (hwf : WFM script) (hc : SubsCold script) (i rr : Nat) (ver0 : Option Nat)
+theorem presence (script : List Op) (hwf : WFM script) (i rr : Nat) (ver0 : Option Nat)
     (path0 : Path) (gls : List Level) (hs : List Hid)
     (hri : routeInfo script i = some (rr, ver0, path0, gls, hs)) :
     ∀ (js : List Nat) (r : Nat) (mpre : Path) (mls : List Level),
@@ -818,11 +830,7 @@ theorem presence (script : List Op) (hwf : WFM script) (hc : SubsCold script) (i
           have hsr := List.getElem?_eq_getElem hs_lt
           have hpr := List.getElem?_eq_getElem hp_lt
           have hinvS := rinvM script hwf.r j (Nat.le_of_lt hjl) s _ hsr
-          have hcold := subs_cold script hc j (Nat.le_of_lt hjl) s _ (by omega) hsr
-          have hpend : recS ∈ ((W script j).routers[s]).pending := by
-            rcases hinvS.pres (arr js i) recS htn hH hex with h | ⟨treg, _, _, h⟩
-            · exact h
-            · rw [hinvS.cold hcold] at h; simp at h
+          have hobj : recS ∈ ((W script j).routers[s]).objs := hinvS.opres (arr js i) recS htn hH hex
           refine ⟨{ ver := none, path := seg :: recS.path,
                     hs := ((if inh then ((W script j).routers[p]).mw else []) ++ ((W script j).routers[s]).mw ++ extra) ++
                       recS.hs }, ⟨_, hop, ?_⟩, ?_, hp_lt, hjl, by simp⟩
@@ -830,8 +838,8 @@ theorem presence (script : List Op) (hwf : WFM script) (hc : SubsCold script) (i
             refine List.mem_map.mpr ⟨_, ?_, rfl⟩
             unfold mountRecs
             rw [hpr, hsr]
-            simp only [List.mem_append, List.mem_map]
-            exact Or.inl ⟨recS, hpend, rfl⟩
+            simp only [List.mem_map]
+            exact ⟨recS, hobj, rfl⟩
           · simp [hpath]
 
 /-! ### uniqueness of the instance behind a path, and the theorem -/
@@ -1004,7 +1012,7 @@ theorem getLast?_append_some {α} (a b : List α) (x : α) (h : b.getLast? = som
 
 /-- **Soundness of the composition model, `Mount` included** — for scripts in which only the
     serving router is warmed up explicitly. -/
-theorem compose_admitted_mount (script : List Op) (hwf : WFM script) (hc : SubsCold script) (tg : Target)
+theorem compose_admitted_mount (script : List Op) (hwf : WFM script) (tg : Target)
     (ver : Option Nat) (path : Path) (ls : List Level) (hl : levels script tg = some (ver, path, ls)) :
     ∃ chain, compose script ver path = some chain ∧ matchLevels ls chain = true := by
   obtain ⟨js, i⟩ := tg
@@ -1020,7 +1028,7 @@ theorem compose_admitted_mount (script : List Op) (hwf : WFM script) (hc : SubsC
       obtain ⟨mpre, mls⟩ := y0
       simp only [hml, Option.bind_some, Option.some.injEq, Prod.mk.injEq] at hl
       obtain ⟨rfl, rfl, rfl⟩ := hl
-      obtain ⟨rec, hH, hpath, hex, harrlt, hver⟩ := presence script hwf hc i rr ver path0 gls hs hri js 0 mpre mls hml
+      obtain ⟨rec, hH, hpath, hex, harrlt, hver⟩ := presence script hwf i rr ver path0 gls hs hri js 0 mpre mls hml
       have hv : rec.ver = ver := by
         by_cases hjs : js = []
         · simpa [hjs] using hver
@@ -1089,7 +1097,7 @@ theorem compose_admitted_mount (script : List Op) (hwf : WFM script) (hc : SubsC
       have hpath' : rec0'.path = mpre ++ path0 := by rw [← hyp.2, b4]; rfl
       -- the oracle's description of the record that was found
       obtain ⟨js', i'', rr', ver', path0', gls', hs', mpre', mls', d1, d2, d3, d4, d5, d6, sg', opi', d7, d8, d9⟩ :=
-        bridge script hwf hc i' 0 rec0' b3
+        bridge script hwf i' 0 rec0' b3
       have hlast : (mpre ++ path0).getLast? = some sg := getLast?_append_some _ _ _ hsg
       have hlast' : (mpre' ++ path0').getLast? = some sg' := getLast?_append_some _ _ _ d7
       rw [← d4, hpath', hlast] at hlast'
